@@ -25,6 +25,12 @@ Round 6 (over ℝ, Mathlib's arccos):
   T_C08_specs_real         ArcEdge through the point at θ/2, Angle(θ, axis) for every witness choice, Origin (flatness 1) give the same
                            third point, the circle's centre and radius, and the length r·θ
   T_C08_tie_theta_guard / _arc3 / _origin / _valid   the model agrees with guards, constants, defaults regenerated from the source text
+Round 6c:
+  T_C08_arc3_length_coords   the ℝ length theorem on coordinates: R·arccos(r1·r3/R²) or R·(2π − that) by the code's side test
+  T_C08_arc3_chord_real      arc length ≥ chord for every accepted three-point arc
+  T_C08_arc3_param           frame and angles 0 < ψ < θ < 2π derived from the coordinates of any accepted triple
+  T_C08_arc3_length_all      length = r·θ ↔ (θ ≤ π ∨ ψ < π) for every accepted input, r·(2π − θ) otherwise
+  T_C08_arc3_translation_real   the length does not depend on where the arc is
 -/
 import CBV.Lemmas.C08
 import CBV.Lemmas.C08Real
